@@ -38,6 +38,9 @@ def run_one(tape, opts):
     c.onexc = False
     c.assert_fn = False
     flavour = tape.choice("config", ("testtools", "extended", "none", "stream"), "flavour")
+    if opts.get("tier") == "thorough":
+        c.max_ops += 2
+        c.max_cleanups += 2
     runner = lc.draw_runner(tape)
     if runner != "plain":
         c.skip_decorators = False     # what @skip does to setUp/tearDown under the Twisted runners is not in any property
